@@ -38,6 +38,7 @@ type World struct {
 	Pods           map[string]*api.Pod
 	Namespaces     map[string]*api.Namespace
 	GlobalConfig   map[string]string // data of the global ConfigMap; nil = no ConfigMap object
+	TCPConfig      map[string]string // data of the --tcp-services-configmap ConfigMap (public port -> entry); nil = no ConfigMap object
 	clock          int64
 	SplitSubsets   bool // op `opt~subsets=1`
 }
